@@ -100,6 +100,47 @@ func endpointScenario(k int) {
 		}
 		return ep
 	}
+	// directed prologue: a bound socket connects (TCP trades its reservation for the 4-tuple),
+	// a second socket takes the port, the first one is closed - the second one's reservation
+	// must still keep a third socket out
+	if r.Chance(1, 2) {
+		trn := []string{"tcp", "tcp", "udp"}[r.Intn(3)]
+		fams := []string{"v4", "dual"}
+		fa, fb, fc := fams[r.Intn(2)], fams[r.Intn(2)], fams[r.Intn(2)]
+		a, b, c := mk(trn, fa), mk(trn, fb), mk(trn, fc)
+		// the stack's IPv4 address as a socket of that family writes it (v4-mapped on a dual-stack socket)
+		own4 := func(fam string) tcpip.Address {
+			if fam == "dual" {
+				return "\x00\x00\x00\x00\x00\x00\x00\x00\x00\x00\xff\xff" + wire.AddrA4
+			}
+			return wire.AddrA4
+		}
+		peer4 := tcpip.Address(wire.AddrB4)
+		if fa == "dual" {
+			peer4 = "\x00\x00\x00\x00\x00\x00\x00\x00\x00\x00\xff\xff" + wire.AddrB4
+		}
+		if a == nil || b == nil || c == nil {
+			return
+		}
+		const pp = 3002
+		used[pp] = true
+		ea := a.Bind(tcpip.FullAddress{Port: pp}, nil)
+		ec := a.Connect(tcpip.FullAddress{Addr: peer4, Port: 9})
+		baddr := []tcpip.Address{"", own4(fb)}[r.Intn(2)]
+		eb := b.Bind(tcpip.FullAddress{Addr: baddr, Port: pp}, nil)
+		tr("prologue %s: A bind :%d -> %v, connect -> %v; B bind %v:%d -> %v", trn, pp, ea, ec, []byte(baddr), pp, eb)
+		a.Close()
+		tr("prologue: A closed")
+		if eb == nil {
+			caddr := []tcpip.Address{"", own4(fc)}[r.Intn(2)]
+			if e3 := c.Bind(tcpip.FullAddress{Addr: caddr, Port: pp}, nil); e3 == nil {
+				viol("conflicting-binds-both-succeeded", fmt.Sprintf("%s: socket B is bound to %v:%d; after socket A (bound to the same port earlier, then connected, now closed) was closed, socket C could bind %v:%d as well", trn, []byte(baddr), pp, []byte(caddr), pp))
+			}
+			run.Count("endpoint_prologue_third_bind_attempts", 1)
+		}
+		b.Close()
+		c.Close()
+	}
 	for step := 0; step < 6+r.Intn(14) && !bad; step++ {
 		var live []*epSock
 		for _, s := range socks {
